@@ -32,3 +32,26 @@ def run(ctx):
                 muts = [d for d in f.args.defaults if isinstance(d, (ast.List, ast.Dict, ast.Set))]
                 ctx.check('%s no mutable default' % q, not muts, 'a list/dict/set literal is used as default argument', ctx.where(rel, q))
             ctx.guard(q, chk)
+
+    ctx.rule('C20-R3 subset-sum uses every couple at most once')
+
+    def reuse():
+        f = ctx.func(KN, 'dynprog')
+        # a one-dimensional table keyed by the partial sum, filled with the item loop INSIDE the sum loop and no
+        # membership test on the predecessor entry, lets one couple be taken several times (unbounded knapsack)
+        outer = [n for n in ast.walk(f) if isinstance(n, ast.For)]
+        bad = False
+        for o in outer:
+            inner = [n for n in ast.walk(o) if isinstance(n, ast.For) and n is not o]
+            if not inner:
+                continue
+            it_o = ast.unparse(o.iter)
+            if 's' in it_o and any('n' in ast.unparse(i.iter) or 'l' in ast.unparse(i.iter) for i in inner):
+                tests = ' '.join(ast.unparse(t.test) for t in ast.walk(o) if isinstance(t, ast.If))
+                if 'not in' not in tests:
+                    bad = True
+        ctx.check('dynprog item reuse', not bad,
+                  'the table is indexed by the partial sum only and every couple is tried for every sum with no "already used" test: '
+                  'a couple can be selected several times (dynprog([(a,3),(b,4)],6) returns [a,a], which is not a sub-collection)',
+                  ctx.where(KN, 'dynprog'))
+    ctx.guard('dynprog reuse', reuse)
